@@ -738,17 +738,19 @@ func (s *clientSocket) registerAckHandler(f any, timeout time.Duration) (id uint
 		delete(s.acks, id)
 		s.acksMu.Unlock()
 
-		remove := func(slice []sendBufferItem, s int) []sendBufferItem {
-			return append(slice[:s], slice[s+1:]...)
-		}
-
+		// Keep the packets of other events. A new slice is built because removing
+		// elements from a slice while ranging over it skips elements and can slice
+		// out of range (a packet with attachments has several entries here).
 		s.sendBufferMu.Lock()
-		for i, packet := range s.sendBuffer {
+		var kept []sendBufferItem
+		for _, packet := range s.sendBuffer {
 			if packet.ackID != nil && *packet.ackID == id {
 				s.debug.Log("Removing packet with ack ID", id)
-				s.sendBuffer = remove(s.sendBuffer, i)
+				continue
 			}
+			kept = append(kept, packet)
 		}
+		s.sendBuffer = kept
 		s.sendBufferMu.Unlock()
 	})
 	if err != nil {
